@@ -33,7 +33,14 @@ type W struct {
 	cleanup   []func()
 	socks     []mangos.Socket // every socket made by Sock, for the end-of-run hygiene
 	NoHygiene bool
+	// RaceOnly: the scenario runs under engine F for the race detector's benefit
+	// only; its own oracle (decided by engine B) is muted, a failure just ends it
+	RaceOnly       bool
+	raceOnlyFailed bool
 }
+
+// Failed reports whether the run has failed (or, race-only, should stop).
+func (w *W) Failed() bool { return w.raceOnlyFailed || w.World.Failed() }
 
 func (w *W) Choose(stream string, n int) int { return w.T.Choose(stream, n) }
 
@@ -74,6 +81,10 @@ func (w *W) Op(format string, a ...interface{}) {
 func (w *W) SetShape(k string, v interface{}) { w.Shape[k] = v }
 
 func (w *W) Failf(key, format string, a ...interface{}) {
+	if w.RaceOnly {
+		w.raceOnlyFailed = true
+		return
+	}
 	w.Fail(key, fmt.Sprintf(format, a...))
 }
 
